@@ -32,7 +32,7 @@ class MethodView:
 
     def ok_succ(self, g):
         """the successor block taken when the guard does not fail"""
-        bb = g["bb"]
+        bb = g.get("sbb", g["bb"])   # a threaded guard (`ensure!(a || b)`) is computed in g["bb"] and branched on in g["sbb"]
         t = self.body.blocks[bb]["t"]
         if t["k"] == "assert":
             return t["t"]
@@ -40,7 +40,7 @@ class MethodView:
         return oks[0] if len(oks) == 1 else None
 
     def fail_succ(self, g):
-        bb = g["bb"]
+        bb = g.get("sbb", g["bb"])
         return [s for s in cfg.succs(self.body)[bb] if self.F.edge_fails(bb, s)]
 
     # ---- calls ----------------------------------------------------------------------------
